@@ -316,9 +316,15 @@ where
             }
         };
 
-        sink.close()
-            .await
-            .map_err(|err| TopicLogSyncChannelError::MessageSink(format!("{err:?}")))?;
+        // A failure to close the sink must not swallow the terminal event: fold it into the
+        // session result (keeping an earlier error) and report it as `Failed` below.
+        let result = match sink.close().await {
+            Ok(()) => result,
+            Err(err) => result.and(Err(TopicLogSyncChannelError::MessageSink(format!(
+                "{err:?}"
+            ))
+            .into())),
+        };
 
         let final_event = match result.as_ref() {
             Ok(_) => {
